@@ -10,17 +10,20 @@ FORMAT = ("script [h; (op a b)*] callers 0..n-1 with n = h % 100; h // 100 = f s
           "clone alternately; (f//4)%2: key type whose Hash sends every key to one bucket; (f//8)%2: layer built through builder().name().build()); "
           "op 1=Poll a 2=Drop a 4=Complete a b(0 ok,1 err,2 panic: outcome of caller a's own inner call) "
           "5=Call a with key b (service.call: the role is decided here) 6=Arm a (the next Clone of a value produced by caller a's inner "
-          "call panics, once) 7=Call a with key b where the inner service's call() panics if this request reaches it. "
+          "call panics, once) 7=Call a with key b where the inner service's call() panics if this request reaches it "
+          "8=Call a with key b during which the metrics recorder panics (role counter; crate built with feature metrics) "
+          "3=Advance: b milliseconds pass (a ignored). "
           "trace: per event [r; val; wake mask; mask of callers whose inner call is in flight; mask of armed Clone panics] with "
-          "r: -1 nothing, 0 pending, 1 Ok(val), 2 Err(Service(val)), 3 LeaderCancelled, 4 RecvError, 5 panicked (poll, or the call() of op 7), "
+          "r: -1 nothing, 0 pending, 1 Ok(val), 2 Err(Service(val)), 3 LeaderCancelled, 4 RecvError, 5 panicked (poll, or the call() of op 7/8 after the scripted fault went off), 7 call() panicked on its own, "
           "9 nothing to poll; val = id of the caller whose inner call produced the value")
-RULE = ("random scripts over 2-8 callers and 1-5 keys: calls at any time (also after a key was freed), polls in any order, drops of "
+RULE = ("random scripts over 2-8 callers and 1-12 keys: calls at any time (also after a key was freed), polls in any order, drops of "
         "leaders and waiters at any point (before the first poll, while pending, after the inner call completed but before the leader "
         "was polled), ok/err/panic/never outcomes, completions before the call, inner.call() panicking under a would-be leader or a "
-        "would-be waiter, Clone panics armed before the leader's completing poll or between it and a waiter's poll; every way of sharing "
+        "would-be waiter, the metrics recorder panicking in call() in either role, time passing (1 ms .. 1 day) at any point, Clone panics armed before the leader's completing poll or between it and a waiter's poll; every way of sharing "
         "the service value (clone per call, one value, clone chain, two values), colliding-hash keys, builder route; plus staged scenarios "
         "(leader + k waiters, then finish / drop / panic / clone panic, then late polls and a fresh call; a call that panics followed by "
-        "requests for the same key); plus all scripts up to a small length over 3 callers and 2 keys (two alphabets); "
+        "requests for the same key; a pending leader with polled waiters while seconds, minutes, a day pass; 17-99 requests fanning in on "
+        "one key); plus all scripts up to a small length over 3 callers and 2 keys (three alphabets); "
         "non-trivial = some request was coalesced as a waiter")
 TRUSTED = ["tokio broadcast channel (one message, try_recv: value before Closed, Closed once the only sender is dropped, one Clone per "
            "receipt) and the parking_lot mutex around the map are modelled; tied to the libraries only by this correspondence run",
@@ -43,7 +46,7 @@ def events(s):
     evs = []
     for k in range(0, len(body) - len(body) % 3, 3):
         op, a, b = body[k:k + 3]
-        if op in (1, 2, 4, 5, 6, 7) and 0 <= a < n:
+        if op in (1, 2, 3, 4, 5, 6, 7, 8) and 0 <= a < n:
             evs.append((op, a, b))
     return n, evs
 
@@ -90,14 +93,23 @@ def monitor(s, t):
         per = {}
         for j in range(n):
             if (fl2 >> j) & 1:
-                if key[j] is None and not (op in (5, 7) and j == a):
+                if key[j] is None and not (op in (5, 7, 8) and j == a):
                     return "inner call of caller %d in flight before its call() (event %d)" % (j, k)
                 kk = key[j] if key[j] is not None else max(0, b)
                 per[kk] = per.get(kk, 0) + 1
         for kk, c in per.items():
             if c > 1:
                 return "%d inner calls in flight for key %d (event %d)" % (c, kk, k)
-        if op in (5, 7):
+        if op in (5, 7, 8) and r not in (-1, 5):
+            return "call() of caller %d panicked although nothing it was given panicked (r=%d, event %d)" % (a, r, k)
+        if op == 8 and state[a] == "idle" and r == 5:
+            # the recorder panicked inside call(): the request is gone whatever its role would have been; no inner call may
+            # have been started, and the key must be as usable as before (checked when the next request for it arrives)
+            key[a] = max(0, b)
+            if fl2 != fl:
+                return "call() of caller %d unwound (metrics recorder panicked) but the in-flight set changed %d -> %d (event %d)" % (a, fl, fl2, k)
+            state[a] = "resolved"
+        elif op in (5, 7, 8):
             if state[a] == "idle":
                 kk = max(0, b)
                 key[a] = kk
@@ -110,8 +122,8 @@ def monitor(s, t):
                         return "caller %d arrived while caller %d's call for key %d was in flight but reached the inner service (its call() panicked) (event %d)" % (a, leaders[0], kk, k)
                     state[a] = "waiter"
                     leader_of[a] = leaders[0]
-                elif op == 5:
-                    # key free: a fresh inner call must start now
+                elif op in (5, 8):
+                    # key free: a fresh inner call must start now (op 8 whose recorder was not consulted is an ordinary call)
                     if fl2 != fl | (1 << a):
                         return "caller %d arrived with key %d free but no fresh inner call started (in-flight %d -> %d, event %d)" % (a, kk, fl, fl2, k)
                     state[a] = "leader"
@@ -128,6 +140,10 @@ def monitor(s, t):
         elif op == 6:
             if fl2 != fl:
                 return "Arm changed the in-flight set (event %d)" % k
+        elif op == 3:
+            # the crate has no business with the clock: whatever a request is waiting for, it is not the time
+            if fl2 != fl:
+                return "the passage of %d ms changed the set of inner calls in flight %d -> %d (event %d)" % (b, fl, fl2, k)
         elif op == 4:
             if comp[a] is None:
                 comp[a] = b if b in (0, 1) else 2
@@ -158,6 +174,11 @@ def monitor(s, t):
                         return "leader %d resolved (r=%d) before its inner call completed (event %d)" % (a, r, k)
                     if fl2 != fl:
                         return "pending leader poll changed the in-flight set (event %d)" % k
+                elif r == 0 and (mask >> a) & 1:
+                    # still pending although its inner call has completed, but it has asked to be polled again: a yield, its business
+                    polled[a] = True
+                    if fl2 != fl & ~(1 << a) and fl2 != fl:
+                        return "pending leader poll changed the in-flight set %d -> %d (event %d)" % (fl, fl2, k)
                 else:
                     if c == 2:
                         if r != 5:
@@ -241,10 +262,24 @@ def corpus():
         [2, 5, 0, 0, 6, 0, 0, 4, 0, 1, 1, 0, 0, 5, 1, 0, 4, 1, 0, 1, 1, 0],
         # Clone panics for the first waiter only (armed after the leader completed): the second waiter still gets the result
         [3, 5, 0, 1, 5, 1, 1, 5, 2, 1, 4, 0, 0, 1, 0, 0, 6, 0, 0, 1, 1, 0, 1, 2, 0],
+        # the metrics recorder panics in call() of the would-be leader 0 (279420e): key free, 1 leads and completes, 2 shares
+        [3, 8, 0, 4, 1, 0, 0, 5, 1, 4, 5, 2, 4, 1, 2, 0, 4, 1, 0, 1, 1, 0, 1, 2, 0],
+        [103, 8, 0, 4, 5, 1, 4, 4, 1, 1, 1, 1, 0], [1503, 8, 0, 4, 5, 1, 4, 4, 1, 1, 1, 1, 0],
+        # ... of a would-be waiter: only that request is lost, the leader and the other waiter are not disturbed
+        [3, 5, 0, 2, 8, 1, 2, 5, 2, 2, 1, 1, 0, 4, 0, 0, 1, 0, 0, 1, 2, 0],
+        # time passes while the leader is pending: waiters keep waiting (no timer anywhere), then share the late result
+        [3, 5, 0, 1, 5, 1, 1, 5, 2, 1, 1, 0, 0, 1, 1, 0, 3, 0, 29999, 1, 1, 0, 3, 0, 1, 1, 1, 0, 1, 2, 0, 3, 0, 86400000, 1, 1, 0, 1, 2, 0,
+         4, 0, 0, 1, 0, 0, 1, 1, 0, 1, 2, 0],
+        # twenty requests on one key: one inner call, nineteen waiters
+        [20] + sum(([5, i, 3] for i in range(20)), []) + [1, 7, 0, 1, 19, 0, 4, 0, 1, 1, 0, 0] + sum(([1, i, 0] for i in range(1, 20)), []),
         # eight callers on colliding keys 0..4
         [408, 5, 0, 0, 5, 1, 1, 5, 2, 2, 5, 3, 3, 5, 4, 4, 5, 5, 0, 5, 6, 1, 5, 7, 4, 4, 4, 0, 1, 4, 0, 1, 7, 0, 4, 0, 1, 1, 0, 0, 1, 5, 0,
          4, 1, 0, 1, 6, 0, 1, 1, 0, 1, 6, 0],
     ]
+
+
+# durations in ms around the values a timeout would plausibly have (1 s, 5 s, 10 s, 30 s, 1 min, 5 min, 1 h, 1 day)
+SPANS = [1, 999, 1000, 5000, 10000, 29999, 30000, 30001, 60000, 300000, 3600000, 86400000]
 
 
 def header(rng, n, plain=0.4):
@@ -256,7 +291,7 @@ def header(rng, n, plain=0.4):
 
 def random_script(rng, maxn=8, maxlen=36, nkeys=None):
     n = rng.randint(2, maxn)
-    nk = nkeys or rng.choice([1, 2, 2, 3, 5])
+    nk = nkeys or rng.choice([1, 2, 2, 3, 5, 12])
     s = [header(rng, n)]
     called = set()
     faults = rng.random() < 0.5
@@ -266,7 +301,7 @@ def random_script(rng, maxn=8, maxlen=36, nkeys=None):
             cand = [i for i in range(n) if i not in called]
             i = rng.choice(cand) if cand and rng.random() < 0.9 else rng.randrange(n)
             called.add(i)
-            s += [7 if faults and rng.random() < 0.2 else 5, i, rng.randrange(nk)]
+            s += [rng.choice([7, 8]) if faults and rng.random() < 0.25 else 5, i, rng.randrange(nk)]
         elif x < 0.66:
             i = rng.choice(sorted(called)) if called and rng.random() < 0.9 else rng.randrange(n)
             s += [1, i, 0]
@@ -276,6 +311,8 @@ def random_script(rng, maxn=8, maxlen=36, nkeys=None):
         elif x < 0.84 and faults:
             i = rng.choice(sorted(called)) if called and rng.random() < 0.8 else rng.randrange(n)
             s += [6, i, 0]
+        elif x < 0.88:
+            s += [3, 0, rng.choice(SPANS)]
         else:
             s += [4, rng.randrange(n), rng.choice([0, 0, 1, 1, 2])]
     # tail: everything still alive is polled twice (bounded number of polls after the last external event)
@@ -293,11 +330,18 @@ def staged(rng):
     s = [header(rng, n), 5, 0, k0]
     ws = list(range(1, n - 1))
     for w in ws:
-        s += [7 if rng.random() < 0.1 else 5, w, k0 if rng.random() < 0.8 else (k0 + 1) % 3]
+        s += [rng.choice([7, 8]) if rng.random() < 0.12 else 5, w, k0 if rng.random() < 0.8 else (k0 + 1) % 3]
         if rng.random() < 0.5:
             s += [1, w, 0]
     if rng.random() < 0.7:
         s += [1, 0, 0]
+    if rng.random() < 0.3:
+        # the leader stays pending for a long time; the waiters are polled meanwhile and must keep waiting
+        for _ in range(rng.randint(1, 3)):
+            s += [3, 0, rng.choice(SPANS)]
+            for w in ws:
+                if rng.random() < 0.6:
+                    s += [1, w, 0]
     if rng.random() < 0.3 and ws:
         s += [2, rng.choice(ws), 0]
     end = rng.choice(["ok", "err", "panic", "drop", "drop_after_complete", "clone_panic", "clone_panic", "waiter_clone_panic"])
@@ -320,7 +364,7 @@ def staged(rng):
     order = ws[:]
     rng.shuffle(order)
     fresh_at = rng.randint(0, len(order))
-    fresh = [7, n - 1, k0, 5, n - 1, k0] if rng.random() < 0.1 else [5, n - 1, k0]
+    fresh = [rng.choice([7, 8]), n - 1, k0, 5, n - 1, k0] if rng.random() < 0.1 else [5, n - 1, k0]
     for idx, w in enumerate(order):
         if idx == fresh_at:
             s += fresh
@@ -334,17 +378,17 @@ def staged(rng):
 
 
 def call_panics(rng):
-    """inner.call() panics under a would-be leader; then requests for the same key (the first must lead), waiters on it, results"""
+    """inner.call() or the metrics recorder panics under a would-be leader; then requests for the same key (the first must lead), waiters on it, results"""
     n = rng.randint(3, 6)
     k0 = rng.randrange(4)
     s = [header(rng, n)]
     if rng.random() < 0.3:
         s += [5, n - 1, (k0 + 1) % 4]                  # an unrelated leader on another key
-    s += [7, 0, k0]
+    s += [rng.choice([7, 8]), 0, k0]
     if rng.random() < 0.3:
         s += [1, 0, 0]                                  # nothing to poll
     for w in range(1, n - 1):
-        s += [7 if rng.random() < 0.25 else 5, w, k0 if rng.random() < 0.85 else (k0 + 1) % 4]
+        s += [rng.choice([7, 8]) if rng.random() < 0.25 else 5, w, k0 if rng.random() < 0.85 else (k0 + 1) % 4]
         if rng.random() < 0.5:
             s += [1, w, 0]
     l = rng.randrange(1, n - 1)
@@ -352,6 +396,71 @@ def call_panics(rng):
     for _ in range(2):
         for w in range(n):
             s += [1, w, 0]
+    return s
+
+
+def slow_leader(rng):
+    """a leader whose inner call takes very long: waiters are polled again and again while time passes (they must stay pending:
+    their leader is neither dropped nor panicked), late joiners, then the late result reaches everybody"""
+    n = rng.randint(3, 6)
+    k0 = rng.randrange(3)
+    s = [header(rng, n), 5, 0, k0]
+    joined = []
+    if rng.random() < 0.7:
+        s += [1, 0, 0]
+    for w in range(1, n):
+        if rng.random() < 0.6:
+            s += [5, w, k0]
+            joined.append(w)
+            if rng.random() < 0.7:
+                s += [1, w, 0]
+    for _ in range(rng.randint(1, 4)):
+        s += [3, 0, rng.choice(SPANS)]
+        for w in joined:
+            if rng.random() < 0.7:
+                s += [1, w, 0]
+        late = [w for w in range(1, n) if w not in joined]
+        if late and rng.random() < 0.5:
+            w = rng.choice(late)
+            s += [5, w, k0, 1, w, 0]
+            joined.append(w)
+    s += [4, 0, rng.choice([0, 0, 1, 2])]
+    if rng.random() < 0.5:
+        s += [3, 0, rng.choice(SPANS)]
+    s += [1, 0, 0]
+    for _ in range(2):
+        for w in range(1, n):
+            s += [1, w, 0]
+    return s
+
+
+def fan_in(rng):
+    """many requests (17-40, sometimes 64 or 99) for one key while its call is in flight - far more than any plausible cap on waiters - a few on a
+    second key; then the result (or the leader's drop) reaches every one of them"""
+    n = rng.choice([rng.randint(17, 40)] * 5 + [64, 99])      # 99 = the most a script header can name
+    k0 = rng.randrange(3)
+    s = [header(rng, n, 0.6)]
+    order = list(range(n))
+    rng.shuffle(order)
+    lead = order[0]
+    other = []
+    for idx, i in enumerate(order):
+        if idx > 0 and rng.random() < 0.08:
+            s += [5, i, k0 + 1]
+            other.append(i)
+        else:
+            s += [5, i, k0]
+        if rng.random() < 0.3:
+            s += [1, i, 0]
+    end = rng.choice(["ok", "err", "drop", "panic"])
+    if end == "drop":
+        s += [2, lead, 0]
+    else:
+        s += [4, lead, {"ok": 0, "err": 1, "panic": 2}[end], 1, lead, 0]
+    if other:
+        s += [4, other[0], 0, 1, other[0], 0]
+    for i in order:
+        s += [1, i, 0]
     return s
 
 
@@ -380,6 +489,10 @@ ALPHA2 = [(7, 0, 0), (5, 0, 0), (5, 1, 0), (7, 1, 0), (5, 2, 0), (6, 0, 0), (1, 
           (4, 0, 0), (4, 0, 1), (2, 0, 0)]
 
 
+# the recorder's panic, and time
+ALPHA3 = [(8, 0, 0), (8, 1, 0), (5, 0, 0), (5, 1, 0), (5, 2, 0), (1, 0, 0), (1, 1, 0), (1, 2, 0), (4, 0, 0), (2, 0, 0), (3, 0, 30000)]
+
+
 def exhaustive(depth, h=3, alpha=ALPHA):
     for L in range(1, depth + 1):
         for evs in itertools.product(alpha, repeat=L):
@@ -396,14 +509,20 @@ def generate(rng, tier):
         out += [staged(rng) for _ in range(800)]
         out += [call_panics(rng) for _ in range(250)]
         out += [late_drop(rng) for _ in range(100)]
+        out += [slow_leader(rng) for _ in range(300)]
+        out += [fan_in(rng) for _ in range(120)]
         out += list(exhaustive(2))
         out += list(exhaustive(2, 3, ALPHA2))
         out += list(exhaustive(2, 103, ALPHA2))
+        out += list(exhaustive(2, 3, ALPHA3))
     else:
         out += [random_script(rng, 8, 70) for _ in range(30000)]
         out += [staged(rng) for _ in range(12000)]
         out += [call_panics(rng) for _ in range(4000)]
         out += [late_drop(rng) for _ in range(2000)]
+        out += [slow_leader(rng) for _ in range(6000)]
+        out += [fan_in(rng) for _ in range(2500)]
+        out += list(exhaustive(5, 3, ALPHA3))
         out += list(exhaustive(5))
         out += list(exhaustive(5, 3, ALPHA2))
         out += list(exhaustive(3, 103, ALPHA2))
@@ -418,7 +537,7 @@ def nontrivial(s, t):
     n, evt = d
     fl = 0
     for (e, o) in evt:
-        if e[0] in (5, 7) and o[3] == fl and fl != 0 and o[0] != 5:
+        if e[0] in (5, 7, 8) and o[3] == fl and fl != 0 and o[0] != 5:
             return True     # a call that did not start an inner call while something was in flight
         fl = o[3]
     return False
@@ -429,8 +548,9 @@ def classify(s, t):
     out = []
     if d:
         n, evt = d
-        out.append("callers%d" % n)
-        out.append("keys%d" % len(set(max(0, e[2]) for (e, _) in evt if e[0] in (5, 7))))
+        out.append("callers%d" % n if n <= 8 else "callers9-16" if n <= 16 else "callers17+")
+        nk = len(set(max(0, e[2]) for (e, _) in evt if e[0] in (5, 7, 8)))
+        out.append("keys%d" % nk if nk <= 5 else "keys6+")
         f = s[0] // 100 if s and s[0] >= 0 else 0
         out.append("share%d" % (f % 4))
         if (f // 4) % 2:
@@ -451,6 +571,41 @@ def classify(s, t):
             out.append("inner_call_panicked")
         if any(e[0] == 7 and o[0] == -1 and o[3] != 0 for (e, o) in evt):
             out.append("call_panic_armed_for_a_waiter")
+        fl = 0
+        for (e, o) in evt:
+            if e[0] == 8 and o[0] == 5:
+                out.append("recorder_panicked_in_call")
+                out.append("recorder_panicked_while_a_call_in_flight" if fl != 0 else "recorder_panicked_nothing_in_flight")
+            fl = o[3]
+        # time passed while some waiter had already returned Pending and was polled again afterwards
+        pend, aged = set(), set()
+        for (e, o) in evt:
+            if e[0] == 1 and o[0] == 0:
+                if e[1] in aged:
+                    out.append("pending_waiter_or_leader_polled_after_time_passed")
+                pend.add(e[1])
+            elif e[0] == 3 and e[2] > 0:
+                aged |= pend
+                out.append("time_passes")
+            elif e[0] in (1, 2):
+                pend.discard(e[1]); aged.discard(e[1])
+        # the largest number of requests coalesced on one inner call
+        cnt = {}
+        fl = 0
+        lead_of_key = {}
+        for (e, o) in evt:
+            if e[0] in (5, 7, 8) and o[0] != 5:
+                kk = max(0, e[2])
+                if o[3] != fl:
+                    lead_of_key[kk] = e[1]; cnt[e[1]] = 0
+                elif kk in lead_of_key and (fl >> lead_of_key[kk]) & 1:
+                    cnt[lead_of_key[kk]] += 1
+            fl = o[3]
+        mw = max(cnt.values()) if cnt else 0
+        if mw >= 16:
+            out.append("waiters16+")
+        elif mw >= 8:
+            out.append("waiters8-15")
         bm = 0
         for (e, o) in evt:
             if e[0] == 1 and bm & ~o[4]:
@@ -460,7 +615,7 @@ def classify(s, t):
         leaders = {}
         fl = 0
         for (e, o) in evt:
-            if e[0] in (5, 7) and (o[3] != fl or o[0] == 5):
+            if e[0] in (5, 7, 8) and (o[3] != fl or o[0] == 5):
                 kk = max(0, e[2])
                 leaders[kk] = leaders.get(kk, 0) + 1
             fl = o[3]
